@@ -69,7 +69,7 @@ let where_of_states (l : V.hstate list) =
     tagname = true; special = List.exists is_special_state l }
 
 let finding_tag ?(clause = "") ~(text : V.n list) ~(parsed : string) (w : where) : string =
-  if has_prefix "comment_token_in_output" clause && V.finding_D45 text then "\tfinding=D45"
+  if (has_prefix "comment_token_in_output" clause || has_prefix "structure_differs_from_the_authors_markup" clause) && V.finding_D45 text then "\tfinding=D45"
   else if w.script && V.finding_D13 text then "\tfinding=D13"
   else if w.doctype && V.finding_D42 text then "\tfinding=D42"
   else begin
@@ -103,6 +103,12 @@ let () =
             let w = if clause = "structure_changed_by_data" && V.same_structure_mod_doctype a b then { w with doctype = true } else w in
             fail clause w
           | None ->
+            (* the author's own markup (templates without control structures): same tags, attribute names,
+               DOCTYPE tokens and final state as the template text with placeholders in place of the actions *)
+            let author_differs =
+              Array.length f > 11 && f.(11) <> "-" && not (V.same_structure_as_author (bytes_of_hex f.(11)) a) in
+            if author_differs then fail "structure_differs_from_the_authors_markup" (where_of_states [final_state a])
+            else
             ok id (if a = b then "same_output"
                    else if V.ends_in_data a then "+same_structure"
                    else "+same_structure_and_same_final_state_other_than_data")
